@@ -1,5 +1,5 @@
 import FsnVerif.Model.Chan
-import FsnVerif.Proofs.SkeletonTie
+import FsnVerif.Proofs.SkeletonTieCaps
 import FsnVerif.Proofs.BridgeTables
 import FsnVerif.Proofs.InotifyLemmas
 /-!
